@@ -13,7 +13,7 @@ def wname(w):
     return "id%dseq%d" % w
 
 
-def sym_conf(ctx, idw, seqw, crc=None, large=None, prefix="", segctrl=None):
+def sym_conf(ctx, idw, seqw, crc=None, large=None, prefix="", segctrl=None, plain=False):
     """PduConfig with symbolic IDs over the full width, symbolic direction/mode/seg ctrl; crc/large concrete when given.
     Returns (conf, vals) where vals is a dict of the symbolic field values."""
     v = dict(
@@ -22,10 +22,14 @@ def sym_conf(ctx, idw, seqw, crc=None, large=None, prefix="", segctrl=None):
         direction=ctx.flag(prefix + "dir"), segctrl=ctx.flag(prefix + "segctrl") if segctrl is None else segctrl,
         crc=ctx.flag(prefix + "crc") if crc is None else crc,
         large=ctx.flag(prefix + "large") if large is None else large, idw=idw, seqw=seqw)
+    # plain: the flags are handed over as plain integers / bools of the right value instead of enum members (the enums are
+    # IntEnums; nothing converts the arguments)
+    e = (lambda cls, x: (bool(x) if cls in (CrcFlag, LargeFileFlag) and isinstance(x, int) else (int(x) if isinstance(x, int) else x))) \
+        if plain else (lambda cls, x: en(ctx, cls, x))
     conf = PduConfig(source_entity_id=UnsignedByteField(v["src"], idw), dest_entity_id=UnsignedByteField(v["dst"], idw),
-                     transaction_seq_num=UnsignedByteField(v["seq"], seqw), trans_mode=en(ctx, TransmissionMode, v["mode"]),
-                     file_flag=en(ctx, LargeFileFlag, v["large"]), crc_flag=en(ctx, CrcFlag, v["crc"]),
-                     direction=en(ctx, Direction, v["direction"]), seg_ctrl=en(ctx, SegmentationControl, v["segctrl"]))
+                     transaction_seq_num=UnsignedByteField(v["seq"], seqw), trans_mode=e(TransmissionMode, v["mode"]),
+                     file_flag=e(LargeFileFlag, v["large"]), crc_flag=e(CrcFlag, v["crc"]),
+                     direction=e(Direction, v["direction"]), seg_ctrl=e(SegmentationControl, v["segctrl"]))
     return conf, v
 
 
@@ -98,3 +102,19 @@ def config_matrix(tier, widths_quick=None, widths_thorough=None):
 
 def cname(cfg):
     return "id%dseq%d%s%s" % (cfg[0], cfg[1], "-crc" if cfg[2] else "", "-large" if cfg[3] else "")
+
+
+def built_pdu_is_isolated_from_config(ctx, conf, cfg, pack, ref, label="a PDU built earlier is unaffected by later assignments to the caller's configuration"):
+    """the caller goes on using its PduConfig for the next PDU: toggles flags, installs the next sequence number, other IDs.
+    (Assignments *to attributes of the configuration*; the library keeps its own copy of the configuration object.)"""
+    idw, seqw, crc, large = cfg
+    conf.crc_flag = CrcFlag.NO_CRC if crc else CrcFlag.WITH_CRC
+    conf.file_flag = LargeFileFlag.NORMAL if large else LargeFileFlag.LARGE
+    conf.trans_mode = TransmissionMode.UNACKNOWLEDGED
+    conf.direction = Direction.TOWARDS_SENDER
+    conf.seg_ctrl = SegmentationControl.RECORD_BOUNDARIES_PRESERVATION
+    conf.transaction_seq_num = UnsignedByteField(0x5A, 8 if seqw != 8 else 1)
+    conf.source_entity_id = UnsignedByteField(0x33, 8 if idw != 8 else 1)
+    conf.dest_entity_id = UnsignedByteField(0x44, 8 if idw != 8 else 1)
+    e, r = call(pack)
+    ctx.holds(label, e is None and r == ref, exc_name(e))
